@@ -350,6 +350,59 @@ class World:
 
         qops._ext_enabled = snap["_ext_enabled"]
 
+    def op_userctx(self, op, p):
+        """The caller's own ambient state around a body: global forward (pre-)hooks registered by the user and a
+        pass-through TorchFunctionMode of the user's. Blocks inside the body must leave them where they were."""
+        import torch.nn.modules.module as M
+        from torch.overrides import TorchFunctionMode
+
+        class UserMode(TorchFunctionMode):
+            def __torch_function__(self, func, types, args=(), kwargs=None):
+                return func(*args, **(kwargs or {}))
+
+        calls = self.__dict__.setdefault("user_hook_calls", [0, 0])
+
+        def user_pre(mod, inp):
+            calls[0] += 1
+
+        def user_post(mod, inp, out):
+            calls[1] += 1
+
+        handles = []
+        for h in op.get("hooks", []):
+            handles.append(M.register_module_forward_pre_hook(user_pre) if h == "pre" else M.register_module_forward_hook(user_post))
+        mode = UserMode() if op.get("mode") else None
+        exc = None
+        if mode is not None:
+            mode.__enter__()
+        before = R.ambient_snapshot()
+        try:
+            self.exec_ops(op.get("body", []), p)
+        except (InjectedFault, InjectedInterrupt, WorkloadError) as e:
+            exc = e
+        after = R.ambient_snapshot()
+        self.judged("C13")
+        self.probe("user_ambient_state_around_blocks")
+        diff = R.ambient_diff(before, after)
+        diff.pop("_ext_enabled", None)
+        if diff:
+            self.violate("C13", "restoration", "userctx", {"tables": ",".join(sorted(diff))}, f"the caller's own hooks / modes differ after the blocks inside: {diff}", p)
+        # tear down whatever is left of the caller's state
+        from torch.overrides import _get_current_function_mode_stack, _pop_mode
+
+        if mode is not None:
+            st = _get_current_function_mode_stack()
+            if st and st[-1] is mode:
+                mode.__exit__(None, None, None)
+            else:
+                while any(m is mode for m in _get_current_function_mode_stack()):
+                    _pop_mode()
+        for h in handles:
+            h.remove()
+        if exc is not None:
+            raise exc
+        return "ok"
+
     def op_noext(self, op, p):
         from optimum.quanto.library import disable_extensions, ops as qops
 
